@@ -1718,6 +1718,9 @@ fn check_graph(g: &GCase, rec: &mut Rec) -> CaseResult {
 /// `top` `repeat` times.
 #[derive(Clone, Debug, Serialize, Deserialize)]
 struct HItem {
+    /// the step re-registers a macro of an earlier step (evidence only)
+    #[serde(default)]
+    rereg: bool,
     new_ctx: bool,
     lib: Vec<Macro>,
     top: Vec<Step>,
@@ -1803,8 +1806,19 @@ fn history_with<C: Context>(case: &HCase, rec: &mut Rec) -> CaseResult {
                     "instantiation-depends-on-history",
                     "after these instantiations on the same thread:\n{before}  (repetition {r}) library:\n{}  '{text}' -> {} ({})\n  but alone, in a new context on a new thread -> {} ({})",
                     lib_text(&it.lib), o.status, o.detail, reference.status, reference.detail
+                        + &match first_bits_diff(&o.data, &reference.data) {
+                            Some(k) if o.status == "Ok" && reference.status == "Ok" => format!(
+                                "; probe {:?} {}: {} vs {}",
+                                PROBES[k % 4], if k < 4 { "Fwd" } else { "Inv" }, fmt_c4(&o.data[k]), fmt_c4(&reference.data[k])
+                            ),
+                            _ => String::new(),
+                        }
                 );
             }
+        }
+        if it.rereg {
+            let same_text = case.items[first..i].iter().any(|p| steps_text(&p.top) == text);
+            rec.class(&format!("re-registration:{}:{}", if same_text { "same-text-again" } else { "other-text" }, reference.status));
         }
         if reference.status == "Ok" {
             rec.class("step=ok");
@@ -1859,7 +1873,7 @@ fn faulty_item(k: u16, repeat: u8, new_ctx: bool) -> HItem {
         6 => vec![st("m:twice", vec![lit("by", "2")])],
         _ => vec![st("m:shift", vec![lit("amount", "3")])],
     };
-    HItem { new_ctx, lib, top, repeat }
+    HItem { rereg: false, new_ctx, lib, top, repeat }
 }
 
 fn history_case() -> impl Strategy<Value = HCase> {
@@ -1870,10 +1884,100 @@ fn history_case() -> impl Strategy<Value = HCase> {
         3 => raw_case(6).prop_map(|r| { let c = build_case(&r, Mode::Safe); (c.lib, c.top) }),
         3 => any::<u16>().prop_map(|k| { let c = chain_case(pick(k, CHAIN_N)); (c.lib, c.top) }),
     ];
-    (0u8..3, prop::collection::vec((item, 1u8..=3, prop::bool::weighted(0.15)), 2..=9)).prop_map(|(ctx, v)| HCase {
-        ctx,
-        items: v.into_iter().map(|((lib, top), repeat, new_ctx)| HItem { new_ctx, lib, top, repeat }).collect(),
+    let rereg = (prop::bool::weighted(0.35), any::<u16>(), any::<u16>(), 0u8..6, prop::bool::weighted(0.75));
+    (0u8..3, prop::collection::vec((item, 1u8..=3, prop::bool::weighted(0.15), rereg), 2..=9)).prop_map(|(ctx, v)| {
+        let mut items: Vec<HItem> = vec![];
+        let mut first = 0usize; // start of the current context's lineage
+        for ((lib, top), repeat, new_ctx, (re, j, k, kind, same_text)) in v {
+            if new_ctx {
+                first = items.len();
+            }
+            let candidates: Vec<usize> = (first..items.len()).filter(|&j| !items[j].lib.is_empty()).collect();
+            if re && !new_ctx && !candidates.is_empty() {
+                // RE-REGISTRATION of one macro registered earlier in this context (top, middle or leaf of
+                // its library) with a different body, then the byte-identical earlier invocation (or another)
+                let j = candidates[pick(j, candidates.len())];
+                let old = items[j].lib[pick(k, items[j].lib.len())].clone();
+                let entry = items[j].top.iter().find(|s| s.is_macro()).map(|s| s.op.clone()).unwrap_or_else(|| old.name.clone());
+                let new = redefine(&old, kind, &entry);
+                let top = if same_text { items[j].top.clone() } else { top };
+                items.push(HItem { rereg: true, new_ctx: false, lib: vec![new], top, repeat });
+            } else {
+                items.push(HItem { rereg: false, new_ctx, lib, top, repeat });
+            }
+        }
+        HCase { ctx, items }
     })
+}
+
+/// A different body for an already registered macro: other constants, another binding form,
+/// another direction, an extra step, a body that closes a cycle through `entry`, or a plain
+/// operator (which opens a cycle the macro was part of).
+fn redefine(old: &Macro, kind: u8, entry: &str) -> Macro {
+    let mut body = old.body.clone();
+    let one = Step { op: "addone".into(), args: vec![], inv: InvPos::No };
+    match kind {
+        0 => {
+            // other constants
+            let mut changed = false;
+            for a in body.iter_mut().flat_map(|s| s.args.iter_mut()) {
+                match &mut a.val {
+                    Val::Lit(v) if !is_ell_name(&a.key) && !is_flag_name(&a.key) && v.parse::<f64>().is_ok() => {
+                        *v = if v == "9" { "8".into() } else { "9".into() };
+                        changed = true;
+                    }
+                    Val::RefDef(_, d) | Val::Def(d) if d.parse::<f64>().is_ok() => {
+                        *d = if d == "9" { "8".into() } else { "9".into() };
+                        changed = true;
+                    }
+                    _ => {}
+                }
+            }
+            if !changed {
+                body.push(one);
+            }
+        }
+        1 => {
+            // another binding form
+            let mut changed = false;
+            for a in body.iter_mut().flat_map(|s| s.args.iter_mut()) {
+                let numeric = !is_ell_name(&a.key) && !is_flag_name(&a.key);
+                let new = match &a.val {
+                    Val::Ref(n) if numeric => Some(Val::RefDef(n.clone(), "6".into())),
+                    Val::RefDef(_, d) => Some(Val::Def(d.clone())),
+                    Val::Def(d) => Some(Val::Lit(d.clone())),
+                    Val::Lit(v) if numeric && v.parse::<f64>().is_ok() => Some(Val::Def("6".into())),
+                    _ => None,
+                };
+                if let Some(v) = new {
+                    a.val = v;
+                    changed = true;
+                    break;
+                }
+            }
+            if !changed {
+                body.insert(0, one);
+            }
+        }
+        2 => {
+            // the other direction
+            let s = &mut body[0];
+            if !s.args.iter().any(|a| a.key == "inv") {
+                s.inv = if s.inv == InvPos::No { InvPos::Suffix } else { InvPos::No };
+            }
+            body.push(one);
+        }
+        3 => body.push(one),
+        4 => {
+            // closes a cycle when the macro is reachable from the earlier invocation
+            body = vec![one, Step { op: entry.to_string(), args: vec![], inv: InvPos::No }];
+        }
+        _ => {
+            // a plain operator: opens any cycle the macro was part of
+            body = vec![Step { op: "helmert".into(), args: vec![Arg { key: "z".into(), val: Val::Lit("5".into()) }], inv: InvPos::No }];
+        }
+    }
+    Macro { name: old.name.clone(), body }
 }
 
 /// Pure cycles of every length 1..8 x body kind x position of the back edge x context
@@ -1960,10 +2064,10 @@ fn main() {
         check_graph,
     );
 
-    let n = run.scale(800, 60_000);
+    let n = run.scale(1_200, 60_000);
     run.section(
         "histories",
-        "sequences of 2..9 instantiations (each 1..3 times) on ONE freshly spawned thread, in one context or switching to brand-new ones: refused cyclic / broken graphs, invocations failing by a missing argument, bad value, unknown macro or unknown operator, valid libraries of section 'equivalence' (depth 0..6) and chains of depth 0..60; every step must give exactly what it gives alone in a new context on a new thread (Ok/Err, counts, bit-identical results both directions); non-trivial = a step that instantiates follows at least one that was refused",
+        "sequences of 2..9 instantiations (each 1..3 times) on ONE freshly spawned thread, in one context or switching to brand-new ones; 35% of the steps RE-REGISTER one macro registered earlier in the same context (top, middle or leaf of its library) with a different body (other constants, another binding form, other direction, extra step, a body closing a cycle, a plain operator opening one) and then instantiate the byte-identical earlier invocation text (75%) or another one - the latest registration of a name is in force; other steps: refused cyclic / broken graphs, invocations failing by a missing argument, bad value, unknown macro or unknown operator, valid libraries of section 'equivalence' (depth 0..6) and chains of depth 0..60; every step must give exactly what it gives alone in a new context on a new thread (Ok/Err, counts, bit-identical results both directions); non-trivial = a step that instantiates follows at least one that was refused",
         n,
         history_case,
         check_history,
